@@ -1,7 +1,7 @@
 (* C01 - Structured control flow is lowered to gotos without changing behaviour.
    This file contains only the statements; proofs live in Tr.v / Check.v / C01Proofs.v. *)
 From Coq Require Import List ZArith.
-From Pory Require Import Lexer Ast Emitter Sem2 Tr Check C01Proofs.
+From Pory Require Import Lexer Ast Parser Emitter Sem2 Tr Check C01Proofs ParseWf ProgWf.
 
 (* PARTIAL (named so): source semantics = chunk-graph semantics, for every abstract game (St, exec, observers),
    every body, every run length, on every chunk graph that the verified relation checker accepts
@@ -29,3 +29,10 @@ Theorem run_monotone :
          (n : nat) (a : State) (s : St) (m : nat), (n <= m)%nat -> res_le (run final step n a s) (run final step m a s).
 Proof. exact run_mono. Qed.
 Print Assumptions run_monotone.
+
+(* the well-scopedness hypothesis above holds of every script body of every accepted program *)
+Theorem accepted_bodies_are_scoped :
+  forall autovars switches env_errors parse_format ts p,
+    parse_program autovars switches env_errors parse_format ts = Parser.Ok p -> all_scoped (bodies_of (tops p)).
+Proof. exact ProgWf.parse_program_scoped. Qed.
+Print Assumptions accepted_bodies_are_scoped.
